@@ -114,3 +114,15 @@ Example cfg_sample_heartbeat_no_flush_accepted :
   explain_all [1; 2; 3] sample_cfg_heartbeat_no_flush = [].
 Proof. exact sample_cfg_heartbeat_no_flush_accepted. Qed.
 Print Assumptions cfg_sample_heartbeat_no_flush_accepted.
+
+(* a lagging follower installs the committed prefix as a snapshot, the leader reads the
+   acknowledgement and continues *)
+Example cfg_sample_install_accepted : explain_all [1; 2; 3] sample_cfg_install = [].
+Proof. exact sample_cfg_install_accepted. Qed.
+Print Assumptions cfg_sample_install_accepted.
+
+(* a snapshot whose content was never committed: item 10, first action refused *)
+Example cfg_sample_install_uncommitted_rejected :
+  run_hist [1; 2; 3] sample_cfg_install_uncommitted = HFail 10 1000.
+Proof. exact sample_cfg_install_uncommitted_rejected. Qed.
+Print Assumptions cfg_sample_install_uncommitted_rejected.
